@@ -122,7 +122,7 @@ func ghost_lastEmit(eb *extension.EventBroker[event.SMTPSession, event.SMTPRespo
 //@ func (*Session).readyHandler
 //@   requires I_smtp(s) && s.state == READY
 //@   modifies s.state, s.from, s.recipients, s.conn, s.text, s.tlsState, s.sendError, ghost_nlines(&s.text.Writer), ghost_lastline(&s.text.Writer), ghost_lastEmit(&s.extHost.Events.BeforeMailFromAccepted)
-//@   ensures s.state == QUIT || I_smtp(s)
+//@   ensures I_smtp(s)
 //@   ensures s.state == MAIL ==> cmd == "MAIL"
 //@   ensures len(s.recipients) == 0
 //@   serves C03
@@ -170,7 +170,7 @@ func ghost_lastEmit(eb *extension.EventBroker[event.SMTPSession, event.SMTPRespo
 //@   requires I_smtp(s) && s.state == DATA
 //@   modifies s.state, s.from, s.recipients, s.sendError, ghost_nlines(&s.text.Writer), ghost_lastline(&s.text.Writer),
 //@      ghost_ndeliver(s.manager), ghost_dlvFrom(s.manager), ghost_dlvRcpts(s.manager), ghost_dlvContent(s.manager)
-//@   ensures[state] s.state == QUIT || (I_smtp(s) && s.state == READY && s.from == nil && len(s.recipients) == 0)
+//@   ensures[state] I_smtp(s) && (s.state == QUIT || (s.state == READY && s.from == nil && len(s.recipients) == 0))
 //@   ensures[once C01] message.Ghost_ndeliver(s.manager) == old(message.Ghost_ndeliver(s.manager)) || message.Ghost_ndeliver(s.manager) == old(message.Ghost_ndeliver(s.manager)) + 1
 //@   ensures[envelope C01] message.Ghost_ndeliver(s.manager) != old(message.Ghost_ndeliver(s.manager)) ==>
 //@      message.Ghost_dlvFrom(s.manager) == old(s.from) && vcSameSlice(message.Ghost_dlvRcpts(s.manager), old(s.recipients))
@@ -178,3 +178,21 @@ func ghost_lastEmit(eb *extension.EventBroker[event.SMTPSession, event.SMTPRespo
 //@   ensures[sizeLimit C06] message.Ghost_ndeliver(s.manager) != old(message.Ghost_ndeliver(s.manager)) ==>
 //@      len(message.Ghost_dlvContent(s.manager)) <= s.config.MaxMessageBytes
 //@   serves C01 C02 C03 C06
+
+// NewSession: assumed (its TLS branch asserts the connection type, which only the listener can
+// guarantee; TLS is out of scope).  What the command loop relies on is the initial state.
+//@ func NewSession
+//@   trusted
+//@   requires server != nil && conn != nil
+//@   ensures ret != nil && vcFresh(ret) && ret.Server == server && ret.state == GREET && len(ret.recipients) == 0 &&
+//@      ret.conn == conn && ret.text != nil && ret.remoteDomain == "" && ret.sendError == nil
+
+// The command loop: every iteration starts and ends in a state satisfying the session invariant, and
+// every handler is called in the state its contract requires (C03 sequencing; with the handler
+// contracts: MAIL only after a greeting, RCPT only inside a transaction, DATA only with a recipient,
+// RSET / EHLO / end of DATA discard the envelope).
+//@ func (*Server).startSession
+//@   requires s.addrPolicy != nil && s.addrPolicy.Config != nil && s.extHost != nil && s.extHost.Events != nil && s.manager != nil && s.wg != nil && conn != nil
+//@   modifies *
+//@   loop 1: invariant ssn != nil && ssn.Server == s && I_smtp(ssn)
+//@   serves C01 C03
